@@ -332,6 +332,17 @@ def _compare_worlds(ctx, rep, t, D, va, vb, na, nb, upa, upb, cfg, uc, A,
         ctx.violate('d_invariant', rep, 'root_shape', tick=t, leaf=i, stat=j)
         continue
       if cfg.get('compression_rank') and Xa.shape[0] != Xa.shape[1]:
+        # the retained eigen-directions are only defined up to the spectral gap
+        # at the cut: without a gap two compiled programs may legitimately pick
+        # different vectors of a degenerate eigenspace
+        rr = int(cfg['compression_rank'])
+        srt = w[::-1] if rr > 0 else w
+        kk = abs(rr)
+        if kk < len(srt) and abs(srt[kk - 1] - srt[kk]) < 1e-3 * max(
+            float(w[-1]), 1e-30):
+          ctx.ev('d_invariant_root', 'vacuous')
+          amp_bad = True
+          continue
         da = ref.dense_from_packed(Xa, cfg['compression_rank'])
         db = ref.dense_from_packed(Xb, cfg['compression_rank'])
         if da is None or db is None:
